@@ -421,8 +421,8 @@ func deepEq(a, b reflect.Value, path string) string {
 	return ""
 }
 
-func rawCase(b []byte) *Case {
-	return &Case{Kind: "raw", Raw: MustJSON(map[string]string{"hex": hex.EncodeToString(b)})}
+func rawCase(b []byte, src string) *Case {
+	return &Case{Kind: "raw", Raw: MustJSON(map[string]string{"hex": hex.EncodeToString(b), "src": src})}
 }
 
 // RoundTripBuilt judges one PDU built through bio-rd's API.
@@ -556,16 +556,25 @@ func clip(b []byte) string {
 }
 
 // RoundTripEmitted judges one PDU the running server put on the wire.
-func RoundTripEmitted(raw []byte, out *Outcome) {
+func RoundTripEmitted(raw []byte, out *Outcome) { RoundTripWire(raw, "emitted", out) }
+
+// RoundTripWire judges one well-formed PDU given as octets: src "emitted" = sent by the running
+// server, src "wire" = built by the independent encoder in a layout Decode accepts but the server
+// itself may never emit (what bio-rd serialises after decoding it must be the same PDU).
+func RoundTripWire(raw []byte, src string, out *Outcome) {
 	if len(raw) < 8 {
 		return
 	}
 	name := pduName(raw[4])
-	w := rawCase(raw)
+	w := rawCase(raw, src)
 	out.Evals++
-	out.Count("emitted_"+name, 1)
+	out.Count(src+"_"+name, 1)
 	p, perr := Parse(raw)
 	if perr != nil {
+		if src != "emitted" {
+			out.Inconclusive = fmt.Sprintf("harness built a PDU its own parser rejects: %v (%s)", perr, clip(raw))
+			return
+		}
 		f := map[string]string{"pdu": name}
 		if fl, ok := fixedLen[raw[4]]; ok && (raw[4] == PDUL2CSNP || raw[4] == PDUL2PSNP) && len(raw) >= fl {
 			f["entries"] = bandOf((len(raw) - fl - 2) / 16)
@@ -575,7 +584,11 @@ func RoundTripEmitted(raw []byte, out *Outcome) {
 		return
 	}
 	n0 := len(out.V)
-	roundTripRaw(name, "emitted", "", raw, nil, out, w)
+	note := ""
+	if src == "wire" {
+		note = wireNote(p)
+	}
+	roundTripRaw(name, src, note, raw, nil, out, w)
 	if len(out.V) > n0 {
 		return
 	}
@@ -600,6 +613,15 @@ func RoundTripEmitted(raw []byte, out *Outcome) {
 			diff = "fixed hello fields differ"
 		}
 		cmpTLVs(p.Hello.TLVs, b.TLVs)
+		if t, ok := Find(p.Hello.TLVs, TLVThreeWay); ok && diff == "" {
+			if tw, err := ParseThreeWay(t.V); err == nil {
+				if bt := b.GetP2PAdjTLV(); bt == nil {
+					diff = "three-way TLV on the wire, GetP2PAdjTLV returns nil"
+				} else if bt.AdjacencyState != tw.State || (tw.HasExt && bt.ExtendedLocalCircuitID != tw.ExtCircuit) || (tw.HasNeighbor && SysID(bt.NeighborSystemID) != tw.NbrSys) || (tw.HasNbrCircID && bt.NeighborExtendedLocalCircuitID != tw.NbrCircuit) {
+					diff = fmt.Sprintf("three-way TLV %x decodes to state %d circuit %d neighbor %x/%d", t.V, bt.AdjacencyState, bt.ExtendedLocalCircuitID, bt.NeighborSystemID, bt.NeighborExtendedLocalCircuitID)
+				}
+			}
+		}
 	case *packet.LSPDU:
 		id := MkLSPID(SysID(b.LSPID.SystemID), b.LSPID.PseudonodeID, b.LSPID.LSPNumber)
 		if id != p.LSP.ID || b.SequenceNumber != p.LSP.Seq || b.RemainingLifetime != p.LSP.Lifetime || b.Checksum != p.LSP.Checksum || b.TypeBlock != p.LSP.TypeBlock || b.Length != p.LSP.PDULen {
@@ -620,8 +642,12 @@ func RoundTripEmitted(raw []byte, out *Outcome) {
 		}
 	}
 	if diff != "" {
-		out.V = append(out.V, V{Clause: "roundtrip", Features: map[string]string{"pdu": name, "src": "emitted", "step": "content"}, Case: w,
-			Detail: fmt.Sprintf("%s sent by the server (%s): %s", name, clip(raw), diff)})
+		f := map[string]string{"pdu": name, "src": src, "step": "content"}
+		if note != "" {
+			f["cause"] = note
+		}
+		out.V = append(out.V, V{Clause: "roundtrip", Features: f, Case: w,
+			Detail: fmt.Sprintf("%s (%s, %s): %s", name, src, clip(raw), diff)})
 	}
 }
 
@@ -953,4 +979,120 @@ func RunBigLSP(c BigLSPCase, emit func(Sent)) {
 			h.Event(ic.Name, false)
 		}
 	})
+}
+
+// wireNote names the layout variant of a harness-built PDU (a stable feature for violations).
+func wireNote(p *PDU) string {
+	if p.Hello != nil {
+		if t, ok := Find(p.Hello.TLVs, TLVThreeWay); ok {
+			return fmt.Sprintf("three-way-len:%d", len(t.V))
+		}
+		return "no-three-way"
+	}
+	n := 0
+	for _, t := range p.TLVs() {
+		if t.T == TLVLSPEntries {
+			n++
+		}
+	}
+	if p.CSNP != nil || p.PSNP != nil {
+		return fmt.Sprintf("entries-tlvs:%s", bandOf(n))
+	}
+	return ""
+}
+
+// GenWirePDU builds a well-formed PDU with the independent encoder in layouts bio-rd's decoder
+// accepts, including those its own sender never produces: the four RFC 5303 layouts of the
+// three-way TLV, TLVs in any order and repeated, several LSP Entries TLVs per SNP, empty TLVs,
+// unknown TLVs.
+func GenWirePDU(rng *rand.Rand, i int) []byte {
+	sys := SysID{0x31, uint8(rng.IntN(256)), uint8(rng.IntN(256)), 0, 0, uint8(i)}
+	var nb [7]byte
+	copy(nb[:], sysY[:])
+	areas := func() TLV {
+		var as [][]byte
+		for k := rng.IntN(4); k > 0; k-- {
+			a := make([]byte, 1+rng.IntN(13))
+			for j := range a {
+				a[j] = uint8(rng.IntN(256))
+			}
+			as = append(as, a)
+		}
+		return AreaTLV(as...)
+	}
+	extras := func() []TLV {
+		var out []TLV
+		for k := rng.IntN(4); k > 0; k-- {
+			switch rng.IntN(7) {
+			case 0:
+				out = append(out, PaddingTLV(rng.IntN(256)))
+			case 1:
+				out = append(out, TLV{TLVChecksum, []byte{uint8(rng.IntN(256)), uint8(rng.IntN(256))}})
+			case 2:
+				out = append(out, TLV{TLVISNeighbor, nbrBMAC[:]})
+			case 3:
+				out = append(out, HostnameTLV(strings.Repeat("n", rng.IntN(40))))
+			case 4:
+				out = append(out, TLV{uint8(200 + rng.IntN(30)), make([]byte, rng.IntN(60))})
+			case 5:
+				out = append(out, ProtocolsTLV([]uint8{0xcc, 0x8e, 0x81}[:rng.IntN(4)]...))
+			case 6:
+				out = append(out, IPIfAddrTLV(specAddrs(rng.IntN(6))...))
+			}
+		}
+		return out
+	}
+	shuffle := func(t []TLV) []TLV {
+		rng.Shuffle(len(t), func(a, b int) { t[a], t[b] = t[b], t[a] })
+		return t
+	}
+	switch i % 4 {
+	case 0, 1:
+		tw := ThreeWay{State: uint8(rng.IntN(3)), ExtCircuit: rng.Uint32(), NbrSys: SysID{9, 8, 7, 6, 5, uint8(rng.IntN(256))}, NbrCircuit: rng.Uint32()}
+		switch rng.IntN(4) {
+		case 1:
+			tw.HasExt = true
+		case 2:
+			tw.HasExt, tw.HasNeighbor = true, true
+		case 3:
+			tw.HasExt, tw.HasNeighbor, tw.HasNbrCircID = true, true, true
+		}
+		tlvs := []TLV{tw.TLV(), ProtocolsTLV(0xcc, 0x8e), IPIfAddrTLV(specAddrs(rng.IntN(4))...), areas()}
+		tlvs = append(tlvs, extras()...)
+		if rng.IntN(2) == 0 {
+			tlvs = shuffle(tlvs)
+		}
+		return BuildHello(Hello{CircuitType: uint8(1 + rng.IntN(3)), Sys: sys, Hold: uint16(rng.IntN(65536)), LocalCircuit: uint8(rng.IntN(256)), TLVs: tlvs})
+	case 2:
+		tlvs := []TLV{areas(), ProtocolsTLV(0xcc, 0x8e), IPIfAddrTLV(specAddrs(rng.IntN(5))...),
+			ExtISReachTLV(ExtISNbr{ID: nb, Metric: uint32(rng.IntN(1 << 24))}, ExtISNbr{ID: nb, Metric: 6, Sub: []SubTLV{{4, make([]byte, 8)}, {6, []byte{10, 0, 0, 1}}}}),
+			ExtISReachTLV(),
+			ExtIPReachTLV(ExtIPPfx{Metric: 1, Len: 0}, ExtIPPfx{Metric: rng.Uint32(), Len: 32, Addr: rng.Uint32()}, ExtIPPfx{Metric: 3, Len: 9, Addr: 0x0a800000, Down: true, HasSub: true, Sub: []SubTLV{{1, []byte{0, 0, 0, 1}}}}),
+			TLV{TLVTERouterID, []byte{1, 1, 1, 1}}, TLV{TLVISReach, append([]byte{0, 10, 0x80, 0x80, 0x80}, nb[:]...)}}
+		tlvs = append(tlvs, extras()...)
+		return BuildLSP(LSP{Lifetime: uint16(rng.IntN(65536)), ID: MkLSPID(sys, uint8(rng.IntN(3)), uint8(rng.IntN(3))), Seq: rng.Uint32(), TypeBlock: uint8(rng.IntN(256)), TLVs: shuffle(tlvs)})
+	default:
+		es := specEntries(PDUSpec{N: rng.IntN(80)})
+		// several LSP Entries TLVs of irregular sizes (0..15 entries each)
+		var tlvs []TLV
+		for len(es) > 0 {
+			n := rng.IntN(16)
+			if n > len(es) {
+				n = len(es)
+			}
+			if n == 0 {
+				tlvs = append(tlvs, TLV{TLVLSPEntries, nil})
+			} else {
+				tlvs = append(tlvs, LSPEntriesTLVs(es[:n])...)
+			}
+			es = es[n:]
+		}
+		if rng.IntN(4) == 0 {
+			tlvs = append(tlvs, TLV{uint8(200 + rng.IntN(30)), make([]byte, rng.IntN(20))})
+		}
+		if i%8 == 3 {
+			return BuildCSNP(CSNP{Source: SourceID(sys), Start: MkLSPID(SysID{}, 0, uint8(rng.IntN(2))), End: LSPID{0xff, 0xff, 0xff, 0xff, 0xff, 0xff, 0xff, uint8(255 - rng.IntN(2))}, TLVs: tlvs})
+		}
+		return BuildPSNP(PSNP{Source: SourceID(sys), TLVs: tlvs})
+	}
 }
